@@ -967,17 +967,26 @@ def runs_start(ctx):
                                               ctx.rng.choice([RUN_CONFIGS[1], RUN_CONFIGS[2], RUN_CONFIGS[4], RUN_CONFIGS[5]])]
     helper = os.path.join(os.path.dirname(os.path.dirname(os.path.abspath(__file__))), "c04_run.py")
     procs = []
-    for ini, tq, tt in cfgs:
+    # the same cell-bounded configurations with several particles and as many event handlers per tagger: several cell-bounded
+    # candidates of one tagger are pending at once, each on its own deep copy of the prepared handler (and of its bounding potential)
+    many = [("coulomb_atoms/cell_bounded.ini", 1.2, 6.0, {"RandomInputHandler": {"number_of_root_nodes": 6},
+             "CoulombCellBounding": {"number_event_handlers": 6}, "CoulombNearby": {"number_event_handlers": 6},
+             "CoulombSurplus": {"number_event_handlers": 6}, "CuboidPeriodicCells": {"cells_per_side": "5, 5, 5"}}),
+            ("dipoles/cell_bounded.ini", 0.6, 3.0, {"RandomInputHandler": {"number_of_root_nodes": 4},
+             "CoulombCellBounding": {"number_event_handlers": 4}, "CoulombNearby": {"number_event_handlers": 4},
+             "CoulombSurplus": {"number_event_handlers": 4}})]
+    cfgs = [c + (None,) for c in cfgs] + ([many[0]] if ctx.quick else many)
+    for ini, tq, tt, ov in cfgs:
         seed = ctx.rng.randrange(2 ** 31)
         end = tq if ctx.quick else tt
         # output goes to files next to the scratch tree (a pipe would block the child until it is drained)
         base = os.path.join(os.path.dirname(ctx.root), "c04_run_%d" % len(procs))
         fo, fe = open(base + ".out", "w"), open(base + ".err", "w")
-        p = subprocess.Popen(["/venv/bin/python", helper, ctx.root, ini, str(end), str(seed)], stdout=fo, stderr=fe,
+        p = subprocess.Popen(["/venv/bin/python", helper, ctx.root, ini, str(end), str(seed)] + ([json.dumps(ov)] if ov else []), stdout=fo, stderr=fe,
                              cwd=ctx.root, env=dict(os.environ, PYTHONPATH=ctx.root))
         fo.close()
         fe.close()
-        procs.append((ini, end, seed, p, base))
+        procs.append((ini + (" +many" if ov else ""), end, seed, p, base))
     return procs
 
 
@@ -1010,6 +1019,14 @@ def runs_collect(ctx, procs):
             b, q, dr = b2f(r["bound"]), b2f(r["true"]), (b2f(r["draw"]) if r["draw"] is not None else None)
             ctx.evaluations += 1
             ctx.cls(("run", ini, r["handler"], r["accepted"], q > 0, r["one_over_r"]))
+            pb = r.get("proposal_bound")
+            if pb is not None:
+                ctx.count("run:proposal-vs-confirmation-bound-compared")
+                if pb != r["bound"]:
+                    ctx.fail(f"run:{r['handler']}:confirmed-against-a-bound-other-than-the-one-the-event-was-proposed-with",
+                             {**case, "proposal_bound": b2f(pb).hex(), "confirmation_bound": b.hex()},
+                             f"the candidate was proposed at the constant cell bound {b2f(pb)!r} but confirmed against {b!r}: the acceptance "
+                             f"probability is not max(0, true rate) / bounding rate of this event")
             if r["velocity_changed"] != r["accepted"]:
                 ctx.fail(f"run:{r['handler']}:velocities-vs-decision", case,
                          f"confirmed={r['accepted']} but velocities changed={r['velocity_changed']}")
